@@ -31,7 +31,6 @@ import (
 	"testing"
 	"time"
 
-	"github.com/go-logr/logr"
 	"go.minekube.com/gate/pkg/edition/java/proto/packet"
 	"go.minekube.com/gate/pkg/edition/java/proto/packet/plugin"
 	"go.minekube.com/gate/pkg/edition/java/proto/packet/title"
@@ -40,6 +39,7 @@ import (
 	"go.minekube.com/gate/pkg/edition/java/proxy/zzverif/dualrun"
 	"go.minekube.com/gate/pkg/edition/java/proxy/zzverif/vrt"
 	"go.minekube.com/gate/pkg/gate/proto"
+	"go.minekube.com/gate/pkg/internal/packetlimiter"
 )
 
 // ---------------------------------------------------------------- scripted conn
@@ -49,7 +49,8 @@ type conn44 struct {
 	in       []byte // scripted inbound bytes, then EOF
 	out      []byte
 	writeErr error
-	dlErr    error // SetWriteDeadline fails with it (what a closed socket does before the flush even starts)
+	rerrs    []error // once `in` is used up, Read fails with these in turn, then EOF
+	dlErr    error   // SetWriteDeadline fails with it (what a closed socket does before the flush even starts)
 	closes   int
 }
 
@@ -74,6 +75,11 @@ func (c *conn44) Read(p []byte) (int, error) {
 		return 0, net.ErrClosed
 	}
 	if len(c.in) == 0 {
+		if len(c.rerrs) > 0 {
+			err := c.rerrs[0]
+			c.rerrs = c.rerrs[1:]
+			return 0, err
+		}
 		return 0, io.EOF
 	}
 	n := copy(p, c.in)
@@ -114,23 +120,6 @@ var errClasses44 = []errClass44{
 	{"OpError(timeout)", &net.OpError{Op: "write", Net: "tcp", Err: timeoutErr44{}}},
 	{"bare-ECONNRESET", syscall.ECONNRESET},
 	{"ErrClosedConn-from-below", fmt.Errorf("wrapped transport: %w", ErrClosedConn)},
-}
-
-// abortSink44 is a logr sink that discards everything; see new44x.
-type abortSink44 struct {
-	aborting func() bool
-	cancel   context.CancelFunc
-}
-
-func (s *abortSink44) Init(logr.RuntimeInfo)          {}
-func (s *abortSink44) Enabled(int) bool               { return false }
-func (s *abortSink44) Info(int, string, ...any)       {}
-func (s *abortSink44) WithValues(...any) logr.LogSink { return s }
-func (s *abortSink44) WithName(string) logr.LogSink   { return s }
-func (s *abortSink44) Error(error, string, ...any) {
-	if s.aborting() {
-		s.cancel()
-	}
 }
 
 // frame builds an uncompressed frame: varint(len) varint(id) payload.
@@ -230,18 +219,15 @@ func new44(e *dualrun.Env, in []byte) *f44 { return new44x(e, in, true) }
 
 // new44x: withHandler=false leaves the connection without any session handler (a connection that is
 // closed before its first handler was installed).
-func new44x(e *dualrun.Env, in []byte, withHandler bool) *f44 {
+func new44x(e *dualrun.Env, in []byte, withHandler bool) *f44 { return new44y(e, in, withHandler, nil) }
+
+func new44y(e *dualrun.Env, in []byte, withHandler bool, limiter *packetlimiter.Limiter) *f44 {
 	base := &conn44{in: in}
 	// the connection's context derives from a cancellable parent (in production the parent is the
 	// accepted connection's / the proxy's context); cancelling it makes Closed(c) true WITHOUT any close
 	// path having run
 	parent, cancel := context.WithCancel(context.Background())
-	// safety net for the explorer, not part of any oracle: when an execution ends in a deadlock the
-	// scheduler releases the blocked threads with a panic; the read loop's recover() swallows it and - if the
-	// connection is still open - goes back to waiting, spinning forever. Its "recovered panic" log line is
-	// the hook: during such a tear-down the parent context is cancelled so that the loop's condition fails.
-	parent = logr.NewContext(parent, logr.New(&abortSink44{aborting: func() bool { return e.X != nil && e.X.Aborting() }, cancel: cancel}))
-	conn, _ := NewMinecraftConn(parent, base, proto.ServerBound, time.Second, time.Second, -1, nil)
+	conn, _ := NewMinecraftConn(parent, base, proto.ServerBound, time.Second, time.Second, -1, limiter)
 	f := &f44{e: e, base: base, mc: conn.(*minecraftConn), h: &handler44{name: "h1"}, h2: &handler44{name: "h2"}, cancelParent: cancel}
 	f.mc.SetProtocol(version.Minecraft_1_21_4.Protocol)
 	f.noHandler = !withHandler
@@ -385,6 +371,69 @@ var failingEntries44 = []string{"WritePacket", "Write", "Write(large)", "BufferP
 // only the write error can close the connection); (2) the failing write racing with an explicit Close;
 // (3) the failing write while the read loop is parked behind SetAutoReading(false) - the close caused by
 // the write error has to free it.
+// readEnd44: the ways the read loop can END (the statement: "by its read loop ending"), by the class of
+// what the socket / the stream delivers - the reader sorts read errors into retry (EAGAIN, temporary
+// net errors: the loop carries on) and fatal ones, garbage ends it through the decoder, and the
+// serverbound rate limiter ends it without any error.
+type readEnd44 struct {
+	name    string
+	in      []byte
+	errs    []error
+	limiter bool
+}
+
+var readEnds44 = []readEnd44{
+	{name: "EOF"},
+	{name: "EOF-mid-frame", in: keepAliveFrame(1)[:5]},
+	{name: "plain-error", errs: []error{errInjected}},
+	{name: "OpError(ECONNRESET)", errs: []error{&net.OpError{Op: "read", Net: "tcp", Err: os.NewSyscallError("read", syscall.ECONNRESET)}}},
+	{name: "OpError(net.ErrClosed)", errs: []error{&net.OpError{Op: "read", Net: "tcp", Err: net.ErrClosed}}},
+	{name: "io.ErrClosedPipe", errs: []error{io.ErrClosedPipe}},
+	{name: "retry(EAGAIN,temporary)-then-EOF", in: keepAliveFrame(1), errs: []error{syscall.EAGAIN, &net.OpError{Op: "read", Net: "tcp", Err: timeoutErr44{}}}},
+	{name: "garbage-frame-length", in: []byte{0xff, 0xff, 0xff, 0xff, 0xff, 0xff}},
+	{name: "oversized-frame", in: []byte{0xff, 0xff, 0xff, 0x07, 0x00}},
+	{name: "unknown-packet-then-EOF", in: frame44(0x7e, []byte{1, 2, 3})},
+	{name: "rate-limit-exceeded", in: append(keepAliveFrame(1), keepAliveFrame(2)...), limiter: true},
+}
+
+func readEndScenarios44() []dualrun.Scenario {
+	var out []dualrun.Scenario
+	mkf := func(e *dualrun.Env, re readEnd44) *f44 {
+		var lim *packetlimiter.Limiter
+		if re.limiter {
+			// 1 packet per millisecond window = 1000/s > 500/s: the first packet already exceeds the limit,
+			// whatever the clock does
+			lim = packetlimiter.New(500, 0, time.Millisecond)
+		}
+		f := new44y(e, append([]byte{}, re.in...), true, lim)
+		f.base.rerrs = append([]error{}, re.errs...)
+		return f
+	}
+	for _, re := range readEnds44 {
+		out = append(out,
+			dualrun.Scenario{Name: "readloop-ends/" + re.name + "/alone", Quick: -1, Thorough: -1, Body: func(e *dualrun.Env) {
+				f := mkf(e, re)
+				e.Go("a", func() { f.readLoop(); f.writes() })
+				f.finish(true)
+			}},
+			dualrun.Scenario{Name: "readloop-ends/" + re.name + "/vs-Close", Quick: 3, Thorough: -1, Body: func(e *dualrun.Env) {
+				f := mkf(e, re)
+				e.Go("a", func() { f.readLoop(); f.writes() })
+				e.Go("b", func() { f.close() })
+				f.finish(true)
+			}},
+		)
+	}
+	// "however many times": every closing call several times in a row from each of two goroutines
+	out = append(out, dualrun.Scenario{Name: "repeated-closes-vs-repeated-closes", Quick: 2, Thorough: 4, Body: func(e *dualrun.Env) {
+		f := new44(e, nil)
+		e.Go("a", func() { f.close(); f.close(); f.closeUnknown(); f.closeWith(); f.writes() })
+		e.Go("b", func() { f.closeUnknown(); f.closeWith(); f.close(); f.closeUnknown() })
+		f.finish(true)
+	}})
+	return out
+}
+
 func errClassScenarios44() []dualrun.Scenario {
 	var out []dualrun.Scenario
 	for _, ec := range errClasses44 {
@@ -1011,6 +1060,6 @@ func TestVerif(t *testing.T) {
 			panicsPass(r)
 			return
 		}
-		dualrun.Run(r, append(scenarios44(), errClassScenarios44()...))
+		dualrun.Run(r, append(append(scenarios44(), errClassScenarios44()...), readEndScenarios44()...))
 	})
 }
